@@ -17,6 +17,9 @@ Translator plugin for C02 (control flow / command search): the parts of the exec
                           hand-written `impl Ord`/`impl PartialOrd`                     yash-env/src/semantics.rs
   reportStatus            the `ExitStatus::NAME` each of `report_error`, `report_failure`, `report_simple_failure`,
                           `report_simple_error` passes on                yash-builtin/src/common/report.rs
+  keywords                the strings `impl FromStr for Keyword` accepts (yash-syntax/src/parser/lex/keyword.rs), which
+                          is what the `IsKeyword` hook of yash-cli/src/startup.rs asks (`Keyword::from_str(word).is_ok()`,
+                          checked) and so what `command -v` / `type` call a keyword
   reportDivert            `prepare_report_message_and_divert`: the two values of
                           `let divert = if is_special_builtin { … } else { … }`        (same file)
 
@@ -340,8 +343,41 @@ def report_tables(h, statuses):
     return rows, (a, b)
 
 
+KEYWORD_RS = "yash-syntax/src/parser/lex/keyword.rs"
+STARTUP = "yash-cli/src/startup.rs"
+
+
+def keywords(h):
+    src = strip_comments(h.read(KEYWORD_RS))
+    body = h.item_body(src, r"impl\s+(?:std\s*::\s*str\s*::\s*)?FromStr\s+for\s+Keyword\b[^{]*(?=\{)", f"impl FromStr for Keyword in {KEYWORD_RS}")
+    blk = h.item_body(body, r"match\s+\w+\b\s*(?=\{)", f"match in Keyword::from_str ({KEYWORD_RS})")
+    words = []
+    for pat, b in match_arms(h, blk, f"Keyword::from_str in {KEYWORD_RS}"):
+        ok = re.fullmatch(r"Ok\s*\(\s*(?:\w+\s*::\s*)*\w+\s*\)", b.strip().rstrip(","))
+        err = re.fullmatch(r"Err\s*\(.*\)", b.strip().rstrip(","), flags=re.S)
+        if pat.strip() == "_":
+            if not err:
+                h.fail(f"exec: Keyword::from_str in {KEYWORD_RS}: the `_` arm `{b[:40]}` is not an error")
+            continue
+        if not ok:
+            h.fail(f"exec: Keyword::from_str in {KEYWORD_RS}: cannot read arm `{pat[:30]} => {b[:30]}`")
+        for alt in split_top(pat, "|"):
+            m = re.fullmatch(r'\s*"((?:[^"\\]|\\.)*)"\s*', alt)
+            if not m or "\\" in m.group(1):
+                h.fail(f"exec: Keyword::from_str in {KEYWORD_RS}: pattern `{alt.strip()[:30]}` is not a plain string literal")
+            words.append(m.group(1))
+    if len(words) < 10:
+        h.fail(f"exec: Keyword::from_str in {KEYWORD_RS}: only {len(words)} keywords read")
+    st = strip_comments(h.read(STARTUP))
+    m = re.search(r"IsKeyword\s*::\s*<[^>]*>\s*\(\s*\|[^|]*\|\s*\{?([^;]*?)\}?\s*\)\s*\)\s*\)", st, flags=re.S)
+    if not m or not re.search(r"Keyword\s*::\s*from_str\s*\(\s*\w+\s*\)\s*\.\s*is_ok\s*\(\s*\)", m.group(1)):
+        h.fail(f"exec: the IsKeyword hook in {STARTUP} is no longer `Keyword::from_str(word).is_ok()`")
+    return words
+
+
 def extract(h):
     statuses = exit_statuses(h)
+    kws = keywords(h)
     diverts = divert_variants(h)
     report_rows, report_divert = report_tables(h, statuses)
     types = enum_variants(h, h.read(BUILTIN_RS), "Type", BUILTIN_RS)
@@ -375,6 +411,8 @@ def extract(h):
     out += (f"/-- the variants of `enum Divert` ({SEM}) in declaration order, which is the order of the derived "
             "`Ord` (checked: PartialOrd and Ord are derived, not written by hand) -/\n"
             "def divertVariants : List String := [" + ", ".join(h.lean_str(v) for v in diverts) + "]\n\n")
+    out += (f"/-- the words `Keyword::from_str` ({KEYWORD_RS}) accepts = the words the `IsKeyword` hook of {STARTUP} calls keywords -/\n"
+            "def keywords : List String := [" + ", ".join(h.lean_str(v) for v in kws) + "]\n\n")
     out += (f"/-- the ExitStatus constant each report function of {REPORT} passes on -/\n"
             "def reportStatus : List (String × String) := ["
             + ", ".join(f"({h.lean_str(f)}, {h.lean_str(c)})" for f, c in report_rows) + "]\n\n")
